@@ -51,6 +51,8 @@ func rulesC14(c *Ctx) {
 	R := c.R
 	R.Rule("R1", "no panic site in token decoding/accessors can fire", 8)
 	R.Rule("R2", "field coverage of the V3/V4 builders and accessors, amounts, mint/unit, prefixes, distinct keys", 20)
+	R.Rule("R3", "the decoders never answer a failed step with success: in package cashu the error of every call is tested nil, classified or handed on before a return that may report success; where a fallback decoder is tried, success is reported only behind the fallback's success (shared with C20.R6)", 6)
+	c.ruleErrorDisciplinePkgs("R3", []string{"cashu"}, errToleratedMint, 6)
 	scope := c.tokenScope()
 	if len(scope) < 8 {
 		R.Unresolved("R1", "token functions", "fewer than 8 token functions found")
